@@ -126,7 +126,7 @@ theorem crash_only_in_refresh (sp : Spec) (w : World) (ev : Event)
               · split <;> exact hc
               · rw [checkAffected_crashed]; exact hc
           · split
-            · rw [checkAffected_crashed]; exact hc
+            · exact hc
             · exact hc
     | rpcResult t ok =>
       apply contra; simp only [step]
